@@ -39,3 +39,167 @@ pub fn mismatch_summary(m: &Mismatch) -> String {
 pub fn qv(v: &[f64]) -> Vec<Q> {
     v.iter().map(|x| Q::from_f64(*x)).collect()
 }
+
+use crate::snap::Snap;
+
+/// Well-formedness of an AffTree snapshot (property C04's invariant).
+/// Returns (tag, message) of the first failure.
+pub fn well_formed(s: &Snap, expect_out: Option<usize>) -> Result<(), (String, String)> {
+    let max_rows = (usize::BITS - (s.k - 1).leading_zeros()) as usize; // ceil(log2 K)
+    let mut out_dim: Option<usize> = expect_out;
+    for (i, n) in &s.nodes {
+        if n.ncols != s.in_dim {
+            return Err(("in_dim".into(), format!("node {i} has {} columns, tree in_dim {}", n.ncols, s.in_dim)));
+        }
+        let nch = n.n_children();
+        if n.isleaf != (nch == 0) {
+            return Err(("isleaf".into(), format!("node {i}: isleaf={} with {} children", n.isleaf, nch)));
+        }
+        if n.isleaf {
+            match out_dim {
+                None => out_dim = Some(n.mat.len()),
+                Some(d) => {
+                    if d != n.mat.len() {
+                        return Err(("terminal_out_dim".into(), format!("terminal {i} has {} output rows, expected {d}", n.mat.len())));
+                    }
+                }
+            }
+        } else if n.mat.is_empty() || n.mat.len() > max_rows {
+            return Err(("decision_rows".into(), format!("decision {i} has {} rows (K={})", n.mat.len(), s.k)));
+        }
+        for c in n.children.iter().flatten() {
+            match s.nodes.get(c) {
+                None => return Err(("dangling".into(), format!("node {i} -> missing child {c}"))),
+                Some(cn) => {
+                    if cn.parent != Some(*i) {
+                        return Err(("links".into(), format!("child {c} of {i} has parent {:?}", cn.parent)));
+                    }
+                }
+            }
+        }
+    }
+    match s.nodes.get(&s.root) {
+        Some(r) if r.parent.is_none() => Ok(()),
+        _ => Err(("root".into(), "root missing or has a parent".into())),
+    }
+}
+
+use crate::lp::{thickness, Thickness};
+use crate::snap::TreeSide;
+
+pub fn delta() -> Q {
+    Q::from_f64(1e-6)
+}
+
+/// Function comparison `after` vs `before` with the thin-region carve-out (DESIGN G1):
+/// a disagreement counts only if the closed region through which `before` routes the
+/// witness is fat.  Returns the judged mismatches.
+pub fn compare_pruned(before: &Snap, after: &Snap, out: &mut CaseOut, leaf: &mut dyn FnMut(&Face)) -> Vec<Mismatch> {
+    let n = before.in_dim;
+    let imp = TreeSide(after);
+    let rf = TreeSide(before);
+    let mut cfg = Config::default();
+    cfg.max_mismatches = 64;
+    let o = refine(n, &imp, &rf, &cfg, out, &mut |f, _, _| leaf(f));
+    let mut judged = vec![];
+    for m in o.mismatches {
+        let rows = match before.route_rows(&m.point) {
+            Ok(r) => r,
+            Err(_) => {
+                judged.push(m);
+                continue;
+            }
+        };
+        match thickness(n, &rows, &delta()) {
+            Thickness::Fat => judged.push(m),
+            _ => out.add("tolerated_thin_faces", 1),
+        }
+    }
+    judged
+}
+
+/// Structural clause of C03 for operations with stable indices (infeasible_elimination):
+/// removed nodes lie on non-fat paths; a node whose parent changed was forwarded over decisions
+/// all of whose other existing branches are non-fat.
+pub fn structural_elim(before: &Snap, after: &Snap) -> Vec<(String, String)> {
+    let mut errs = vec![];
+    let n = before.in_dim;
+    let fat = |idx: usize| -> bool {
+        match before.path_rows(idx) {
+            Ok(rows) => thickness(n, &rows, &delta()) == Thickness::Fat,
+            Err(_) => false,
+        }
+    };
+    let mut skipped: std::collections::BTreeSet<usize> = Default::default();
+    for (i, an) in &after.nodes {
+        let bn = match before.nodes.get(i) {
+            None => {
+                errs.push(("new_node".into(), format!("node {i} appeared")));
+                continue;
+            }
+            Some(b) => b,
+        };
+        if an.mat != bn.mat || an.bias != bn.bias {
+            errs.push(("node_changed".into(), format!("node {i} changed its function")));
+        }
+        if !bn.isleaf && an.isleaf {
+            errs.push(("decision_became_leaf".into(), format!("decision {i} became a leaf")));
+        }
+        if an.parent != bn.parent {
+            // forwarded: after-parent must be an ancestor in before
+            let chain = match before.path_to(*i) {
+                Ok(c) => c,
+                Err(e) => {
+                    errs.push(("before_corrupt".into(), e));
+                    continue;
+                }
+            };
+            let ap = match an.parent {
+                None => {
+                    errs.push(("became_root".into(), format!("node {i} lost its parent")));
+                    continue;
+                }
+                Some(p) => p,
+            };
+            let pos = match chain.iter().position(|(p, _)| *p == ap) {
+                None => {
+                    errs.push(("moved".into(), format!("node {i} moved below non-ancestor {ap}")));
+                    continue;
+                }
+                Some(p) => p,
+            };
+            // label must be preserved at the ancestor
+            let lab_before = chain[pos].1;
+            let lab_after = after.nodes[&ap].children.iter().position(|c| *c == Some(*i));
+            if lab_after != Some(lab_before) {
+                errs.push(("label_changed".into(), format!("node {i} hangs at label {:?} of {ap}, was reached via label {lab_before}", lab_after)));
+            }
+            for w in pos + 1..chain.len() {
+                let (dec, taken) = chain[w];
+                skipped.insert(dec);
+                for (l, c) in before.nodes[&dec].children.iter().enumerate() {
+                    if let Some(c) = c {
+                        if l != taken && fat(*c) {
+                            errs.push(("skipped_over_fat_sibling".into(), format!("decision {dec} was skipped although its branch {l} (node {c}) is reachable by a margin")));
+                        }
+                    }
+                }
+            }
+        }
+    }
+    for i in before.nodes.keys() {
+        if !after.nodes.contains_key(i) && !skipped.contains(i) {
+            // removed: must not be fat, unless an ancestor is removed too (then the topmost removed one is judged)
+            let parent_removed = before.nodes[i].parent.map(|p| !after.nodes.contains_key(&p) && !skipped.contains(&p)).unwrap_or(false);
+            if !parent_removed && fat(*i) {
+                errs.push(("removed_fat_node".into(), format!("node {i} was removed although its path region is non-empty by a margin")));
+            }
+        }
+    }
+    for i in &skipped {
+        if after.nodes.contains_key(i) {
+            errs.push(("skipped_still_present".into(), format!("decision {i}")));
+        }
+    }
+    errs
+}
